@@ -28,6 +28,8 @@ struct Task {
     pool: Option<usize>,
     /// a later command deliberately removes this task's output directory
     out_removed: bool,
+    /// `hide_success = 1`: output is shown only if the command fails
+    hide_success: bool,
 }
 
 const SIZES: [usize; 12] = [0, 1, 2, 100, 4095, 4096, 4097, 8192, 65535, 65536, 65537, 200_000];
@@ -49,6 +51,7 @@ fn gen_tasks(t: &mut Tape, logdir: &str, big: bool) -> Vec<Task> {
         }
         let plan = plan.join(",");
         let pool = if t.chance(35) { Some(t.below(2)) } else { None };
+        let hide_success = t.chance(20);
         let (mut code, mut signal) = (0, None);
         match t.weighted(&[12, 4, 2]) {
             1 => code = [1, 2, 3, 42, 126, 127, 128, 130, 255][t.below(9)],
@@ -101,7 +104,7 @@ fn gen_tasks(t: &mut Tape, logdir: &str, big: bool) -> Vec<Task> {
             // the shell itself must die from the signal: a child killing only itself is an ordinary exit status
             cmd = format!("{} ; kill -{} $$", cmd, sig);
         }
-        tasks.push(Task { id, plan, code, signal, out, rsp, cmd, stdout_hidden, status_masked, ins, pool, out_removed: false });
+        tasks.push(Task { id, plan, code, signal, out, rsp, cmd, stdout_hidden, status_masked, ins, pool, out_removed: false, hide_success });
     }
     if t.chance(30) {
         // a directory that is created for one step, removed by the next step's command and needed again by a third:
@@ -111,7 +114,7 @@ fn gen_tasks(t: &mut Tape, logdir: &str, big: bool) -> Vec<Task> {
         let d = format!("churn{}", base);
         let mk = |id: usize, out: &str, ins: Vec<String>, tail: &str| {
             let cmd = format!("{} agent {} {} '1:10' 0 {} -{}", q(&exe), q(logdir), id, q(out), tail);
-            Task { id, plan: "1:10".into(), code: 0, signal: None, out: out.to_string(), rsp: None, cmd, stdout_hidden: false, status_masked: false, ins, pool: None, out_removed: false }
+            Task { id, plan: "1:10".into(), code: 0, signal: None, out: out.to_string(), rsp: None, cmd, stdout_hidden: false, status_masked: false, ins, pool: None, out_removed: false, hide_success: false }
         };
         let mut a = mk(base, &format!("{}/first", d), vec![], "");
         a.out_removed = true;
@@ -138,6 +141,9 @@ fn render(tasks: &[Task]) -> String {
         }
         if let Some(p) = t.pool {
             m += &format!("  pool = pl{}\n", p);
+        }
+        if t.hide_success {
+            m += "  hide_success = 1\n";
         }
         m += &format!("build {}: r{}", crate::sim::model::esc(&t.out), t.id);
         for i in &t.ins {
@@ -275,7 +281,8 @@ impl C16 {
             Ok(recs) => {
                 for t in &tasks {
                     let plan = parse_plan(&t.plan);
-                    let expect: Vec<(usize, usize, Vec<u8>)> = plan.iter().enumerate().filter(|(_, (fd, _))| *fd != 0 && !(t.stdout_hidden && *fd == 1)).map(|(seq, (fd, len))| (*fd, seq, record(t.id, *fd, seq, *len, seq + 1 == plan.len()))).collect();
+                    let hidden_all = t.hide_success && !failing.iter().any(|f| f.id == t.id);
+                    let expect: Vec<(usize, usize, Vec<u8>)> = plan.iter().enumerate().filter(|(_, (fd, _))| !hidden_all && *fd != 0 && !(t.stdout_hidden && *fd == 1)).map(|(seq, (fd, len))| (*fd, seq, record(t.id, *fd, seq, *len, seq + 1 == plan.len()))).collect();
                     let mine: Vec<(usize, &(usize, usize, usize, usize, usize))> = recs.iter().enumerate().filter(|(_, r)| r.0 == t.id).collect();
                     if mine.len() != expect.len() {
                         v("record-count", format!("task {} wrote {} records, n2 shows {} of them (plan {}, {} bytes of stdout)", t.id, expect.len(), mine.len(), t.plan, stdout.len()));
